@@ -79,6 +79,8 @@ class PrintReader:
         out = []
         self.kind = kind
         self.varargs = False
+        self.env = {}
+        self.locals = dict(self._prologue())
         try:
             for labels, s in self.items[start:]:
                 if self.stmt(s, out):
@@ -86,6 +88,48 @@ class PrintReader:
         except _Opaque as e:
             return Layout([("atom", str(e))])
         return Layout(out, self.varargs)
+
+    def _prologue(self):
+        """locals of print declared before the switch with a literal initialiser: `bool flag = false; int nb = 0;`"""
+        if not hasattr(self, "_prologue_cache"):
+            vals = {}
+            for st in self.fn["body"].get("s", []):
+                if st.get("k") == "decl":
+                    for v in st.get("vars", []):
+                        i = v.get("init")
+                        while isinstance(i, dict) and i.get("k") in ("cast", "paren"):
+                            i = i["e"]
+                        if isinstance(i, dict) and i.get("k") in ("bool", "int"):
+                            vals[v.get("name")] = bool(i["v"]) if i["k"] == "bool" else int(i["v"])
+            self._prologue_cache = vals
+        return self._prologue_cache
+
+    def layouts(self, kind, limit=96):
+        """All paths of the print code for `kind`, splitting on the conditions it tests about its children (is child i
+        a constant, is its value 0 / negative / BOX, is it the literal true, has it list type, are there optional
+        operands): [(assumptions, Layout)], assumptions = {atom: truth}.  Atoms name children by position, so a layout
+        together with its assumptions says which trees it is the text of."""
+        results = []
+        todo = [{}]
+        while todo:
+            dec = todo.pop()
+            self.decisions = dec
+            try:
+                ly = self.layout(kind)
+            except _NeedDecision as nd:
+                for v in (False, True):
+                    d2 = dict(dec)
+                    d2[nd.atom] = v
+                    if _atoms_consistent(d2):
+                        todo.append(d2)
+                if len(todo) + len(results) > limit:
+                    self.decisions = None
+                    return None
+                continue
+            finally:
+                self.decisions = None
+            results.append((dec, ly))
+        return results
 
     # statement -> True if a break was reached
     def stmt(self, n, out):
@@ -128,13 +172,38 @@ class PrintReader:
         if k == "attributed":
             return self.stmt(n.get("s"), out)
         if k == "decl":
+            self._bind_decl(n)
             return False
+        if k == "if" and (n.get("var") is not None or n.get("init") is not None) and getattr(self, "decisions", None) is not None:
+            # `if (auto f = get(5); f.get_kind() == LIST)` / `if (bool b = (get(0).get_value() == 0))`
+            if n.get("init") is not None and n["init"].get("k") == "decl":
+                self._bind_decl(n["init"])
+            cond = n["c"]
+            if n.get("var") is not None:
+                cond = n["var"].get("init") or cond
+            v = self.kind_cond(cond)
+            if v is None:
+                raise _Opaque("conditional output (%s)" % short(cond)[:40])
+            if n.get("var") is not None:
+                self.locals[n["var"].get("name")] = v
+            return self.stmt(n["then"] if v else n.get("else"), out)
+        if k == "bin" and n.get("op") == "=" and (n.get("lhs") or {}).get("k") == "ref" and n["lhs"].get("dk") == "local":
+            r = n["rhs"]
+            while r.get("k") in ("cast", "paren"):
+                r = r["e"]
+            if r.get("k") in ("bool", "int"):
+                self.locals[n["lhs"]["name"]] = bool(r["v"]) if r["k"] == "bool" else int(r["v"])
+                return False
+            sz = self._size_term(r)
+            if sz is not None:
+                self.locals[n["lhs"]["name"]] = ("size", sz)
+                return False
         if k == "if":
             # DOT: if (process || record) <print> else assert(0)
             c = short(n["c"])
             if n.get("else") is not None and all(x.get("k") == "assert" for x in walk(n["else"]) if x.get("k") in ("assert", "call")):
                 return self.stmt(n["then"], out)
-            if "get_size" in c and n.get("else") is None:
+            if "get_size" in c and n.get("else") is None and getattr(self, "decisions", None) is None:
                 # optional argument list: handled as varargs
                 self.varargs = True
                 return False
@@ -151,6 +220,92 @@ class PrintReader:
             return False
         self.expr(n, out)
         return False
+
+    def _bind_decl(self, n):
+        for v in n.get("vars", []):
+            i = v.get("init")
+            if not isinstance(i, dict):
+                continue
+            j = i
+            while j.get("k") in ("cast", "paren") or (j.get("k") == "construct" and len(j.get("args", [])) == 1):
+                j = j["e"] if j.get("k") != "construct" else j["args"][0]
+            if j.get("k") in ("bool", "int"):
+                self.locals[v.get("name")] = bool(j["v"]) if j["k"] == "bool" else int(j["v"])
+                continue
+            pth = self.child_path(j)
+            if pth is not None:
+                self.env = dict(getattr(self, "env", None) or {})
+                self.env[v.get("name")] = pth           # `auto features1 = get(5);`
+                continue
+            sz = self._size_term(j)
+            if sz is not None:
+                self.locals[v.get("name")] = ("size", sz)
+
+    def _size_term(self, e):
+        """get_size() - k  ->  k (the local counts the optional operands after the first k)"""
+        while e.get("k") in ("cast", "paren"):
+            e = e["e"]
+        if e.get("k") == "call" and e.get("name") == "get_size" and self._base_path(e.get("recv")) == ():
+            return 0
+        if e.get("k") == "bin" and e.get("op") == "-" and e["rhs"].get("k") == "int":
+            a = self._size_term(e["lhs"])
+            return None if a is None else a + e["rhs"]["v"]
+        return None
+
+    def atom_of(self, c):
+        """(atom, polarity) for a condition about a child of the printed node, else None.  Atoms:
+        ("kind", path, K), ("value", path, op, n), ("is_true", path), ("typeis", path, T), ("size", ">", n)"""
+        while c.get("k") in ("cast", "paren"):
+            c = c["e"]
+        k = c.get("k")
+        flip = {"<": ">", ">": "<", "<=": ">=", ">=": "<=", "==": "==", "!=": "!="}
+        neg = {"<": ">=", ">=": "<", ">": "<=", "<=": ">", "!=": "=="}
+        if k == "bin" and c.get("op") in flip:
+            for x, y, fl in ((c["lhs"], c["rhs"], False), (c["rhs"], c["lhs"], True)):
+                while x.get("k") in ("cast", "paren"):
+                    x = x["e"]
+                while y.get("k") in ("cast", "paren"):
+                    y = y["e"]
+                op = flip[c["op"]] if fl else c["op"]
+                num = y.get("v") if y.get("k") == "int" else (y.get("ev") if y.get("k") == "ref" and y.get("dk") == "enumerator" else None)
+                if x.get("k") == "call" and x.get("name") == "get_kind" and x.get("recv") is not None and \
+                        y.get("k") == "ref" and y.get("dk") == "enumerator" and op in ("==", "!="):
+                    pth = self.node_path(x["recv"])
+                    if pth:
+                        return ("kind", pth, y["name"]), op == "=="
+                if x.get("k") == "call" and x.get("name") == "get_value" and x.get("recv") is not None and num is not None:
+                    pth = self.node_path(x["recv"])
+                    if pth:
+                        if op in neg and op != "==":
+                            return ("value", pth, neg[op], int(num)), False
+                        return ("value", pth, op, int(num)), True
+                if x.get("k") == "ref" and x.get("dk") == "local" and isinstance(self.locals.get(x.get("name")), tuple) and \
+                        y.get("k") == "int" and op in (">", ">=", "<", "<=", "==", "!="):
+                    base = self.locals[x["name"]][1]
+                    n_ = y["v"] + base           # local == get_size() - base
+                    if op == ">":
+                        return ("size", ">", n_), True
+                    if op == ">=":
+                        return ("size", ">", n_ - 1), True
+                    if op == "<=":
+                        return ("size", ">", n_), False
+                    if op == "<":
+                        return ("size", ">", n_ - 1), False
+        if k == "call" and c.get("name") == "get_value" and c.get("recv") is not None and not c.get("args"):
+            pth = self.node_path(c["recv"])
+            if pth:
+                return ("value", pth, "==", 0), False
+        if k == "call" and c.get("name") == "is_true" and c.get("recv") is not None:
+            pth = self.node_path(c["recv"])
+            if pth:
+                return ("is_true", pth), True
+        if k == "call" and c.get("name") == "is" and c.get("args") and c["args"][0].get("dk") == "enumerator":
+            r = c.get("recv") or {}
+            if r.get("k") == "call" and r.get("name") == "get_type" and r.get("recv") is not None:
+                pth = self.node_path(r["recv"])
+                if pth:
+                    return ("typeis", pth, c["args"][0]["name"]), True
+        return None
 
     def _is_kind_expr(self, e):
         """data->kind / get_kind() / this->get_kind(): the kind of the node being printed."""
@@ -171,6 +326,22 @@ class PrintReader:
             return self.kind_cond(c["e"], depth)
         if k == "bool":
             return bool(c["v"])
+        if k == "ref" and c.get("dk") == "local" and isinstance(getattr(self, "locals", {}).get(c.get("name")), (bool, int)):
+            return bool(self.locals[c["name"]])
+        if getattr(self, "decisions", None) is not None and not getattr(self, "tree", None):
+            if k == "bin" and c.get("op") in ("&&", "||"):
+                a = self.kind_cond(c["lhs"], depth)          # C semantics: the right operand only when needed
+                if a is None:
+                    return None
+                if (c["op"] == "&&" and not a) or (c["op"] == "||" and a):
+                    return a
+                return self.kind_cond(c["rhs"], depth)
+            at = self.atom_of(c)
+            if at is not None:
+                atom, pol = at
+                if atom not in self.decisions:
+                    raise _NeedDecision(atom)
+                return self.decisions[atom] == pol
         if k == "un" and c.get("op") == "!":
             v = self.kind_cond(c["e"], depth)
             return None if v is None else not v
@@ -364,14 +535,12 @@ class PrintReader:
         """path of the node an access chain starts from: () for this / *this / an implicit receiver, the bound path for
         a parameter of a predicate helper being evaluated"""
         if r is None:
-            return () if not getattr(self, "env", None) else None
+            return ()
         while r.get("k") in ("cast", "paren"):
             r = r["e"]
         env = getattr(self, "env", None) or {}
         if r.get("k") == "ref" and r.get("name") in env:
             return env[r["name"]]
-        if env:
-            return None
         if r.get("k") == "this" or (r.get("k") == "un" and r.get("op") == "*" and (r.get("e") or {}).get("k") == "this"):
             return ()
         return None
@@ -460,9 +629,81 @@ class PrintReader:
             return "%s(%s,%s)" % (e["name"], self.threshold(e["args"][0]), self.threshold(e["args"][1]))
         raise _Opaque("embrace with threshold %s" % short(e)[:40])
 
+    def _value_item(self, e):
+        """("value", path, type) for get(i).get_value() / get_double_value() / get_string_value(), also std::quoted(..)"""
+        quoted = False
+        while e.get("k") in ("cast", "paren") or (e.get("k") == "call" and e.get("name") == "quoted" and e.get("args")) or \
+                (e.get("k") == "construct" and len(e.get("args", [])) == 1):
+            if e.get("k") == "call":
+                quoted = True
+                e = e["args"][0]
+            elif e.get("k") == "construct":
+                e = e["args"][0]
+            else:
+                e = e["e"]
+        if e.get("k") == "call" and e.get("name") in ("get_value", "get_double_value", "get_string_value") and e.get("recv") is not None:
+            pth = self.node_path(e["recv"])
+            if pth:
+                ty = {"get_value": "int", "get_double_value": "double", "get_string_value": "quoted" if quoted else "string"}[e["name"]]
+                return ("value", pth, ty)
+        return None
+
+    def _inline_print_helper(self, e, out):
+        """`helper(<stream>, <child or value>..)` for a helper of this file that writes to the stream: the stream argument
+        is laid out first, then the helper's body with its parameters bound to the children they stand for"""
+        if e.get("ck") not in ("free", "static", "member") or not e.get("fn"):
+            return False
+        if e.get("ck") == "member" and self._base_path(e.get("recv")) != ():
+            return False
+        cands = [f for f in self.F.fns(e["fn"]) if f.get("body") is not None and f.get("file") == self.fn.get("file") and
+                 len(f["params"]) == len(e.get("args", []))]
+        if not cands or not e.get("args") or "ostream" not in (cands[0]["params"][0].get("t") or ""):
+            return False
+        fn = cands[0]
+        if getattr(self, "_inline_depth", 0) > 4:
+            return False
+        binds, vals = {}, {}
+        for p_, a in zip(fn["params"][1:], e["args"][1:]):
+            pth = self.node_path(a) if a.get("k") != "ref" or a.get("name") in (getattr(self, "env", None) or {}) else \
+                self.node_path(a)
+            if pth is not None and "expression_t" in (p_.get("t") or ""):
+                binds[p_["name"]] = pth
+                continue
+            v = self._value_item(a)
+            if v is not None:
+                vals[p_["name"]] = v
+                continue
+            if a.get("k") == "ref" and a.get("name") == "old":
+                continue
+            return False
+        self.expr(e["args"][0], out)
+        if vals and not binds:
+            for v in vals.values():
+                out.append(v)              # a value printer (print_double): the body formats the number
+            return True
+        saved_env, saved_locals = getattr(self, "env", None), self.locals
+        self.env = dict(saved_env or {})
+        self.env.update(binds)
+        self.locals = dict(saved_locals)
+        self._inline_depth = getattr(self, "_inline_depth", 0) + 1
+        try:
+            for st in fn["body"].get("s", []):
+                if st.get("k") == "return":
+                    if st.get("e") is not None:
+                        self.expr(st["e"], out)
+                    break
+                if self.stmt(st, out):
+                    break
+        finally:
+            self.env, self.locals = saved_env, saved_locals
+            self._inline_depth -= 1
+        return True
+
     def expr(self, e, out):
         k = e.get("k")
-        if k == "ref" and e.get("name") == "os":
+        if k == "ref" and e.get("name") in ("os", "o", "out", "stream"):
+            return
+        if k == "ref" and "ostream" in (e.get("t") or ""):
             return
         if k in ("cast",):
             return self.expr(e["e"], out)
@@ -475,8 +716,11 @@ class PrintReader:
                     lhs, rhs = e["args"][0], e["args"][1]
                 self.expr(lhs, out)
                 t = self.lit(rhs)
+                val = self._value_item(rhs) if t is None else None
                 if t is not None:
                     out.append(("tok", t))
+                elif val is not None:
+                    out.append(val)
                 elif rhs.get("k") == "call" and rhs.get("name") == "get_name":
                     out.append(("name",))
                 elif rhs.get("k") == "call" and rhs.get("name") == "get_builtin_fun_name":
@@ -496,11 +740,17 @@ class PrintReader:
                 return
             if name == "print" and e.get("recv") is not None:
                 i = self.child_index(e["recv"])
+                if i is None:
+                    p_ = self.node_path(e["recv"])
+                    if p_:
+                        i = p_[0] if len(p_) == 1 else p_
                 if e.get("args"):
                     self.expr(e["args"][0], out)
                 if i is None:
                     raise _Opaque("print of %s" % short(e["recv"])[:40])
                 out.append(("child", i, "raw"))
+                return
+            if getattr(self, "decisions", None) is not None and self._inline_print_helper(e, out):
                 return
             if name == "print_bound_type":
                 raise _Opaque("print_bound_type")
@@ -512,6 +762,50 @@ class PrintReader:
 
 class _Opaque(Exception):
     pass
+
+
+class _NeedDecision(Exception):
+    def __init__(self, atom):
+        Exception.__init__(self, str(atom))
+        self.atom = atom
+
+
+def _atoms_consistent(dec):
+    """can one tree satisfy all decisions: one kind per child, and an integer value for every child with value atoms"""
+    kinds, vals = {}, {}
+    for atom, v in dec.items():
+        if atom[0] == "kind":
+            if v:
+                if kinds.get(atom[1], atom[2]) != atom[2]:
+                    return False
+                kinds[atom[1]] = atom[2]
+        elif atom[0] == "value":
+            vals.setdefault(atom[1], []).append((atom[2], atom[3], v))
+    for atom, v in dec.items():
+        if atom[0] == "kind" and not v and kinds.get(atom[1]) == atom[2]:
+            return False
+    for pth, cs in vals.items():
+        if _value_for(cs) is None:
+            return False
+        if kinds.get(pth, "CONSTANT") != "CONSTANT":
+            return False
+    sizes = [(a[2], v) for a, v in dec.items() if a[0] == "size"]
+    lo = max([n + 1 for n, v in sizes if v] or [0])
+    hi = min([n for n, v in sizes if not v] or [10 ** 6])
+    return lo <= hi
+
+
+def _value_for(cs):
+    """an integer satisfying [(op, n, truth)], preferring small non-negative ones; None if there is none"""
+    cand = [0, 1, 5, 2, -1, -2]
+    for op, n, _ in cs:
+        cand += [n, n + 1, n - 1]
+    ops = {"==": lambda a, b: a == b, "!=": lambda a, b: a != b, "<": lambda a, b: a < b, "<=": lambda a, b: a <= b,
+           ">": lambda a, b: a > b, ">=": lambda a, b: a >= b}
+    for x in cand:
+        if all(ops[op](x, n) == t for op, n, t in cs):
+            return x
+    return None
 
 
 def _threshold_value(term, parent, prec):
@@ -1125,6 +1419,12 @@ def run_roles(chk, F, rid="R-PRROLES"):
                     j = child(a)
                     if j is not None:
                         uses.append((j, PRINT_ROLE_OF_HELPER[nm], "%s(get(%d))" % (nm, j)))
+                        printed.add(j)
+            if x.get("ck") in ("free", "static") and "ostream" in " ".join((x.get("cpt") or x.get("pt") or [])[:1]):
+                # embrace(os, old, get(j), ..) and other stream helpers of the file: they write the child they are given
+                for a in x.get("args", [])[1:]:
+                    j = child(a)
+                    if j is not None:
                         printed.add(j)
             if nm == "get_double_value" and child(x.get("recv")) is not None:
                 j = child(x["recv"])
